@@ -3,6 +3,7 @@ import Dcg.Proofs.Infer
 import Dcg.Proofs.InferCompose
 import Dcg.Proofs.MemberRename
 import Dcg.Proofs.SingularName
+import Dcg.Proofs.InferText
 /-
 C16 — a model inferred from sample data accepts that sample.
 Only property theorems live here; helper lemmas are in Dcg/Proofs/Infer.lean.
@@ -380,5 +381,75 @@ theorem dup_singular_keyword_witness :
   decide +kernel
 
 end singularName
+
+/-! ## Type lists with `null` inside `anyOf` (seeded C16-h and its family)
+
+genson folds `null` and every keyword-less strategy of a value into ONE member `{"type": [..., "null"]}`
+and puts the containers with keywords beside it in an `anyOf`. `Model.InferText` keeps that text as
+written (`toText`) and transliterates what the parser does with it (`trT`: `get_data_type` on a type
+list sets `is_optional` for the `null` entry; `parse_combined_schema` keeps the member's data type, flag
+included, as a nested union). Both are compared with the code WITHOUT flattening on every run
+(vlib/props/c16_hetero.py, campaigns `text.schema` and `text.tr`). -/
+section typeLists
+open Dcg.Sem Dcg.Sem.Pyd Dcg.Model.Translate Dcg.Model.InferBridge Dcg.Model.InferText Dcg.Model.Constraints
+open Dcg.Proofs.InferText
+
+/-- `get_data_type` on `{"type": [t1, …, "null", …]}` (any list of type names, any length ≥ 1): the data type
+accepts `None` — for both styles, every regex oracle and every positive fuel. -/
+theorem typelist_null_accepted (st : Style) (re : Regex) (g : Nat) (ts : List TName) (h : ts.contains .null = true) :
+    acceptsTy st re (g + 1) [] (typesTy ts) .null = .accept :=
+  typesTy_null st re g ts h
+
+example : [TName.integer, .null, .string].contains .null = true ∧
+    acceptsTy .v2 (fun _ _ => true) 3 [] (typesTy [.integer, .null, .string]) (.str ['a']) = .accept ∧
+    acceptsTy .v2 (fun _ _ => true) 3 [] (typesTy [.integer, .string]) .null = .reject := by decide +kernel
+
+/-- FULL STRENGTH for `null`, every inferred node (unbounded: any combination of scalar kinds, an array with or
+without items, an object with or without members beside it — i.e. wherever the type list stands, alone or as the
+first member of an `anyOf`): a value position in which inference has seen a `null` gets a type that accepts
+`None`. The `null` of a heterogeneous value is carried by the `Optional` of the type-list member and survives
+`parse_combined_schema`. -/
+theorem text_null_accepted (st : Style) (re : Regex) (g : Nat) (n : Node) (h : n.null = true) :
+    acceptsTy st re (g + 2) [] (trT st (toText n)) .null = .accept := by
+  cases n with
+  | mk nu bo s nm ar ho ps rq =>
+    simp only [Node.null] at h
+    subst h
+    rw [toText]
+    exact joinText_null st re g _ _ (typeNames_null _ _ _ _ _)
+
+/-- the items node of `[null, 1, "a", {"k": 1}]`: null + two scalar kinds + a container with keywords -/
+def heteroItems : Node :=
+  addList .empty [.null, .int 1, .str ['a'], .obj [(['k'], .int 1)]]
+
+/-- … and a whole document holding it twice: as a heterogeneous array and as a member that varies across the
+objects of an array -/
+def heteroDoc : SJson :=
+  .obj [(['v'], .arr [.null, .num ⟨1, 0⟩, .str ['a'], .obj [(['k'], .num ⟨1, 0⟩)]]),
+        (['r'], .arr [.obj [(['m'], .bool true)], .obj [(['m'], .null)], .obj [(['m'], .num ⟨25, 1⟩)],
+                      .obj [(['m'], .arr [.num ⟨1, 0⟩])]])]
+
+/-- non-vacuity of `text_null_accepted` and the sample-acceptance statement at text resolution on the demo
+document (both styles): the root class built from the text accepts the document; another shape is rejected -/
+example : heteroItems.null = true ∧
+    acceptsTy .v2 (fun _ _ => true) 20 [] (trTRoot .v2 (infer (toLite heteroDoc))) heteroDoc = .accept ∧
+    acceptsTy .v1 (fun _ _ => true) 20 [] (trTRoot .v1 (infer (toLite heteroDoc))) heteroDoc = .accept ∧
+    acceptsTy .v2 (fun _ _ => true) 20 [] (trTRoot .v2 (infer (toLite heteroDoc))) (.obj [(['v'], .arr [.arr []])]) = .reject := by
+  decide +kernel
+
+/-- The OTHER design refuted (what seeded C16-h does): when `parse_combined_schema` replaces a member that is itself
+a plain union by that member's alternatives, the member's data type — and the `is_optional` flag that was the only
+trace of `null` — is gone: for the items of `[null, 1, "a", {"k": 1}]` the rebuilt union `Union[int, str, K]`
+rejects `None`, while the parser's nesting `Union[Optional[Union[int, str]], K]` accepts it, and so does the
+variant of the other design that hands the flag on as an alternative `None`. -/
+theorem dissolved_member_refuted :
+    acceptsTy .v2 (fun _ _ => true) 20 [] (trT .v2 (toText heteroItems)) .null = .accept ∧
+    acceptsTy .v2 (fun _ _ => true) 20 [] (dissolve (trT .v2 (toText heteroItems))) .null = .reject ∧
+    acceptsTy .v1 (fun _ _ => true) 20 [] (dissolve (trT .v1 (toText heteroItems))) .null = .reject ∧
+    acceptsTy .v2 (fun _ _ => true) 20 [] (dissolveKeeping (trT .v2 (toText heteroItems))) .null = .accept ∧
+    acceptsTy .v2 (fun _ _ => true) 20 [] (dissolve (trT .v2 (toText heteroItems))) (.str ['a']) = .accept := by
+  decide +kernel
+
+end typeLists
 
 end Dcg.Props.C16
